@@ -123,12 +123,22 @@ func (c *localCache) Modify(ctx context.Context, name string, opts *Opts, dels [
 	}
 
 	for _, upd := range upds {
-		err = c.c.WriteValue(ctx, name, &cache.Opts{
+		writeOpts := &cache.Opts{
 			Store:    getStore(opts.Store),
 			Path:     [][]string{upd.GetPath()},
 			Owner:    opts.Owner,
 			Priority: opts.Priority,
-		}, upd.Bytes())
+		}
+		// intended store keys end with the write timestamp and the cache does not remove the
+		// entry of the previous write for the same path, owner and priority. Remove it upfront,
+		// otherwise the superseded value stays in the store next to the new one.
+		if opts.Store == cachepb.Store_INTENDED {
+			err = c.c.DeletePrefix(ctx, name, writeOpts)
+			if err != nil {
+				return err
+			}
+		}
+		err = c.c.WriteValue(ctx, name, writeOpts, upd.Bytes())
 		if err != nil {
 			return err
 		}
